@@ -78,12 +78,12 @@ let () =
            let res_str r = match r with
              | Accept v -> "VALUE " ^ v | Reject -> "NONE" | Throw -> "THROW cvector capacity exceeded"
              | Crash c -> "CRASH " ^ crash_str c | OutOfFuel -> "FUEL" in
-           let (r1, s1) = go inp.verbose in
+           let ((r1, s1), tr1) = go inp.verbose in
            Printf.printf "RES %s\n" (res_str r1);
            print_string "CTX"; List.iter (fun x -> Printf.printf " %d" x) (List.rev s1.ps_ctx); print_string "\n";
-           let e = String.concat "" (List.map (event_str nm g inp.bytes) (trace s1)) in
+           let e = String.concat "" (List.map (event_str nm g inp.bytes) tr1) in
            Printf.printf "ERR %d\n%s\nENDERR\n" (String.length e) e;
-           let (r2, _) = go (not inp.verbose) in
+           let ((r2, _), _) = go (not inp.verbose) in
            Printf.printf "RES2 %s\n" (res_str r2)) (List.rev !inputs));
     print_string "ENDCASE\n"
   in
